@@ -17,6 +17,7 @@ import (
 func init() {
 	reg("R43", func(c *core.Ctx) { hPow2(c, "R43") })
 	reg("R03", func(c *core.Ctx) { hBool2int(c, "R03"); hBetween(c, "R03") })
+	reg("R38", func(c *core.Ctx) { hBetween(c, "R38") }) // the gate's cell-size window is an FBetweenInc
 	reg("R13", func(c *core.Ctx) { hReverseClone(c, "R13") })
 	reg("R06", func(c *core.Ctx) { hLastElement(c, "R06") })
 	reg("R46", func(c *core.Ctx) { hDeleteByIndex(c, "R46"); hFindLastKeyWithMax(c, "R46") })
